@@ -140,3 +140,101 @@ func c16MarkBeforeRecurse(p *Prog) *RuleResult {
 	r.Floor(5)
 	return r
 }
+
+// C16/R7 prefix/suffix overlap.
+//
+// A wildcard pattern "pre*suf" matches a string only if the string starts with pre, ends with suf
+// AND is at least len(pre)+len(suf) long: "aba" starts with "ab" and ends with "ba" but does not
+// match "ab*ba", and cutting s[len(pre):len(s)-len(suf)] out of it is a slice-bounds panic. Every
+// place that tests strings.HasPrefix(s, p) and strings.HasSuffix(s, q) on the very same string in
+// one conjunction must therefore also compare len(s) with something (the siblings that are right
+// do: the external-pattern matcher, the exports/imports pattern matcher), or apply HasSuffix to
+// the remainder after the prefix (a different value, not an instance of this rule).
+func c16PrefixSuffixOverlap(p *Prog) *RuleResult {
+	r := NewRule("C16/R7 prefix-suffix-overlap", "wherever one string is tested with both strings.HasPrefix and strings.HasSuffix in one conjunction (a `pre*suf` wildcard match), its length is also compared, so prefix and suffix cannot overlap")
+	total := 0
+	for _, fn := range p.ModuleFuncs() {
+		var pre, suf []*ssa.Call
+		eachInstr(fn, func(b *ssa.BasicBlock, in ssa.Instruction) {
+			if c, ok := in.(*ssa.Call); ok && len(c.Call.Args) == 2 {
+				switch calleeFullName(c) {
+				case "strings.HasPrefix":
+					pre = append(pre, c)
+				case "strings.HasSuffix":
+					suf = append(suf, c)
+				}
+			}
+		})
+		k := 0
+		for _, hp := range pre {
+			for _, hs := range suf {
+				if hp.Call.Args[0] != hs.Call.Args[0] {
+					continue
+				}
+				// two constant affixes are not a wildcard pattern (e.g. "is this text quoted?")
+				if _, c1 := constString(hp.Call.Args[1]); c1 {
+					if _, c2 := constString(hs.Call.Args[1]); c2 {
+						continue
+					}
+				}
+				s := hp.Call.Args[0]
+				// the block where both are known to be true
+				var both *ssa.BasicBlock
+				for _, b := range fn.Blocks {
+					ht, st := false, false
+					for _, f := range factsAt(b) {
+						if f.Cond == ssa.Value(hp) && f.True {
+							ht = true
+						}
+						if f.Cond == ssa.Value(hs) && f.True {
+							st = true
+						}
+					}
+					if ht && st && (both == nil || both.Dominates(b) == false && b.Dominates(both)) {
+						both = b
+					}
+				}
+				if both == nil {
+					continue // not a conjunction
+				}
+				k++
+				total++
+				r.Instances++
+				key := fmt.Sprintf("%s wildcard match #%d", FuncName(fn), k)
+				lenChecked := false
+				isLenOfS := func(v ssa.Value) bool {
+					c, ok := v.(*ssa.Call)
+					if !ok {
+						return false
+					}
+					bi, ok := c.Call.Value.(*ssa.Builtin)
+					return ok && bi.Name() == "len" && len(c.Call.Args) == 1 && c.Call.Args[0] == s
+				}
+				// a comparison of len(s) that belongs to the same conjunction: evaluated before both
+				// tests, or after at least one of them succeeded
+				eachInstr(fn, func(cb *ssa.BasicBlock, in ssa.Instruction) {
+					bo, ok := in.(*ssa.BinOp)
+					if !ok || !(isLenOfS(bo.X) || isLenOfS(bo.Y)) {
+						return
+					}
+					if cb.Dominates(both) {
+						lenChecked = true
+					}
+					for _, f := range factsAt(cb) {
+						if (f.Cond == ssa.Value(hp) || f.Cond == ssa.Value(hs)) && f.True {
+							lenChecked = true
+						}
+					}
+				})
+				if lenChecked {
+					r.OK(key, true, "the length of the string is compared as well")
+				} else {
+					r.Fail(key, p.Pos(hs.Pos()), "a string is matched against `prefix*suffix` with HasPrefix and HasSuffix only: when prefix and suffix overlap in the string (\"aba\" against \"ab*ba\") the match is accepted and the text between them, s[len(prefix):len(s)-len(suffix)], is a slice-bounds panic")
+				}
+			}
+		}
+	}
+	r.Note(fmt.Sprintf("%d conjunctions of HasPrefix and HasSuffix on one string", total))
+	r.Floor(2)
+	return r
+}
